@@ -145,6 +145,8 @@ theorem canon_keyHash {a : Val} (hw : WF a) (ht : typeOf a = .keyHash) : ∃ s, 
   cases a <;> simp [typeOf] at ht <;> first | (subst ht; exact ⟨_, rfl⟩) | canon_rest
 theorem canon_key {a : Val} (hw : WF a) (ht : typeOf a = .key) : ∃ s, a = .atom .key s := by
   cases a <;> simp [typeOf] at ht <;> first | (subst ht; exact ⟨_, rfl⟩) | canon_rest
+theorem canon_signature {a : Val} (hw : WF a) (ht : typeOf a = .signature) : ∃ s, a = .atom .signature s := by
+  cases a <;> simp [typeOf] at ht <;> first | (subst ht; exact ⟨_, rfl⟩) | canon_rest
 theorem canon_contract {a : Val} {t : Ty} (hw : WF a) (ht : typeOf a = .contract t) : ∃ s, a = .contract t s := by
   cases a <;> simp [typeOf] at ht <;> first | (subst ht; exact ⟨_, rfl⟩) | canon_rest
 theorem canon_address {a : Val} (hw : WF a) (ht : typeOf a = .address) : ∃ s, a = .atom .address s := by
@@ -222,6 +224,23 @@ theorem unV_safe (env : Env) (i : Instr) (a : Val) (t : Ty) (hwa : WF a) (_ : li
         simp only [Option.map_some]
         cases Spec.encodeM y.1 <;> simp
     · simp at h
+  · -- UNPACK
+    rename_i t'
+    simp only [unTy, unpackTy] at h
+    split at h
+    · rename_i hb
+      obtain ⟨hbt, hu⟩ := hb
+      obtain ⟨b, rfl⟩ := canon_bytes hwa (hta.trans hbt)
+      simp only [Spec.unV, Spec.unpackV, hu, Bool.not_true, Bool.false_eq_true, if_false]
+      split
+      · split
+        · rename_i v hv
+          obtain ⟨d, _, hd⟩ := Option.bind_eq_some_iff.mp hv
+          have := (readVal_wf env.readTimestamp Mode.strict t' hu d v hd).2
+          simpa [Res.Safe, litOk] using this
+        · simp [Res.Safe, litOk]
+      · simp [Res.Safe, litOk]
+    · simp at h
 
 section
 variable (env : Env) (st : List Val) (tr : TRes) (hw : StackWF st) (hg : GoodStack st)
@@ -271,6 +290,31 @@ theorem safe_TRANSFER_TOKENS (hty : Typing.step .TRANSFER_TOKENS (st.map typeOf)
     rw [hs]
     simp [Spec.transferTokensV, hpt, goodStack_cons, litOk, hg.2.2.2]
   · simp at hty
+
+theorem safe_CHECK_SIGNATURE (hty : Typing.step .CHECK_SIGNATURE (st.map typeOf) = some tr) :
+    (Spec.step env .CHECK_SIGNATURE st).Safe GoodStack := by
+  rcases st with _ | ⟨a, _ | ⟨b, _ | ⟨c, st⟩⟩⟩
+  · simp [Typing.step] at hty
+  · simp [Typing.step] at hty
+  · simp [Typing.step] at hty
+  rw [stackWF_cons, stackWF_cons, stackWF_cons] at hw
+  rw [goodStack_cons, goodStack_cons, goodStack_cons] at hg
+  have ht : Typing.step .CHECK_SIGNATURE ((a :: b :: c :: st).map typeOf)
+      = (checkSignatureTy (typeOf a) (typeOf b) (typeOf c)).map fun t => .ok (t :: st.map typeOf) := rfl
+  rw [ht] at hty
+  generalize hta : typeOf a = ta at hty
+  generalize htb : typeOf b = tb at hty
+  generalize htc : typeOf c = tc at hty
+  cases ta <;> first | (simp [checkSignatureTy] at hty; done) | skip
+  cases tb <;> first | (simp [checkSignatureTy] at hty; done) | skip
+  cases tc <;> first | (simp [checkSignatureTy] at hty; done) | skip
+  obtain ⟨k, rfl⟩ := canon_key hw.1 hta
+  obtain ⟨s, rfl⟩ := canon_signature hw.2.1 htb
+  obtain ⟨m, rfl⟩ := canon_bytes hw.2.2.1 htc
+  have hs : Spec.step env .CHECK_SIGNATURE (Val.atom .key k :: Val.atom .signature s :: Val.bytes m :: st)
+      = (Spec.checkSignatureV env (.atom .key k) (.atom .signature s) (.bytes m)).bind fun r => .ok (r :: st) := rfl
+  rw [hs]
+  simp [Spec.checkSignatureV, goodStack_cons, litOk, hg.2.2.2]
 
 /-- NEVER is typed on a stack whose top has type `never`: there is no such stack of well-formed values -/
 theorem safe_NEVER (hty : Typing.step .NEVER (st.map typeOf) = some tr) : (Spec.step env .NEVER st).Safe GoodStack := by
@@ -394,8 +438,18 @@ theorem step_safe (env : Env) (i : Instr) (st : List Val) (tr : TRes) (hw : Stac
       (fun _ _ => rfl) (unV_safe env (.EMIT tag t)) hty
   case SELF ep t => simp [Spec.step, goodStack_cons, litOk, hg]
   case TRANSFER_TOKENS => exact safe_TRANSFER_TOKENS env st tr hw hg hty
+  case CHECK_SIGNATURE => exact safe_CHECK_SIGNATURE env st tr hw hg hty
+  case EMPTY_BIG_MAP k v =>
+    simp only [Typing.step, Typing.stepMore, Typing.stepExt] at hty
+    split at hty
+    · rename_i hc
+      simp [Spec.step, Spec.stepMore, Spec.stepExt, hc, goodStack_cons, litOk, goodMap, litOks, strictSorted, hg]
+    · simp at hty
   case PACK =>
     exact safe_unop env st tr hw hg .PACK (Spec.unV env .PACK) (unTy .PACK) (fun _ _ => rfl) rfl
       (fun _ _ => rfl) (unV_safe env .PACK) hty
+  case UNPACK t =>
+    exact safe_unop env st tr hw hg (.UNPACK t) (Spec.unV env (.UNPACK t)) (unTy (.UNPACK t)) (fun _ _ => rfl) rfl
+      (fun _ _ => rfl) (unV_safe env (.UNPACK t)) hty
 
 end Interp
